@@ -148,7 +148,7 @@ func vhQuery(f func() []any) []any {
 // ---- goroutines started by harnesses
 
 var (
-	vhWG       sync.WaitGroup
+	vhWG       = new(sync.WaitGroup)
 	vhGoMu     sync.Mutex
 	vhGoPanic  any
 	vhSchedOn  func() bool
@@ -164,9 +164,10 @@ func vhGo(f func()) {
 		vhSchedGo(f)
 		return
 	}
-	vhWG.Add(1)
+	wg := vhWG // captured: a goroutine leaked by a deadlocked run must not disturb later runs
+	wg.Add(1)
 	go func() {
-		defer vhWG.Done()
+		defer wg.Done()
 		defer func() {
 			if r := recover(); r != nil {
 				vhGoMu.Lock()
@@ -191,4 +192,12 @@ func verifJoin() {
 	if p != nil {
 		panic(p)
 	}
+}
+
+// vhNewRun gives every native run its own WaitGroup and panic slot.
+func vhNewRun() {
+	vhWG = new(sync.WaitGroup)
+	vhGoMu.Lock()
+	vhGoPanic = nil
+	vhGoMu.Unlock()
 }
